@@ -32,6 +32,7 @@ def run(ctx):
     def exact(a, b): return ints(vlib.run_lines(xexe, ['xmul %d %s %s' % (N, fmt(a), fmt(b))])[0])
     builds = ['optim'] + (['debug'] if thorough else [])
     exes = {(be, bu): vlib.build_harness('fft_drv.cpp', vlib.build_lib(bu), be, bu) for be in vlib.BACKENDS for bu in builds}
+    if not thorough: exes[('nayuki-portable', 'debug')] = vlib.build_harness('fft_drv.cpp', vlib.build_lib('debug'), 'nayuki-portable', 'debug')   # the debug self-checks of this back-end run on every case
     # ---- cases
     cases = []    # (tag, line, expected, tolerance)
     Bs = [1, 2**6, 2**9, 2**15, 2**20]
